@@ -55,3 +55,29 @@ fn object_opt_rcref_dangling() { opt_case::<RcRef<i32>>() }
 #[kani::proof]
 #[kani::stub(std::fmt::format, nofmt)]
 fn object_opt_mayberef_dangling() { opt_case::<MaybeRef<i32>>() }
+
+/// The other half of C18: a REQUIRED entry that refers to a missing object is an error of the containing object, and that
+/// error must not be swallowed by an enclosing Option in strict mode (it is in tolerant mode, by design). The inner reader is a
+/// stand-in that fails the way derived readers do for a dangling required entry: the missing-object error wrapped in
+/// Try { .. } / FromPrimitive { .. } context.
+struct NeedsFlags;
+impl Object for NeedsFlags {
+    fn from_primitive(_p: Primitive, _r: &impl Resolve) -> Result<Self> {
+        let inner = PdfError::NullRef { obj_nr: 9 };
+        if kani::any() {
+            Err(PdfError::Try { file: "x", line: 1, column: 1, context: crate::error::Context(Vec::new()), source: Box::new(inner) })
+        } else {
+            Err(PdfError::FromPrimitive { typ: "FontDescriptor", field: "flags", source: Box::new(inner) })
+        }
+    }
+}
+#[kani::proof]
+#[kani::stub(std::fmt::format, nofmt)]
+fn object_opt_nested_required() {
+    let r = Dangling { free: false, tolerant: kani::any() };
+    let tolerant = r.tolerant;
+    let res = <Option<NeedsFlags> as Object>::from_primitive(Primitive::Integer(1), &r);
+    let ok = if tolerant { matches!(res, Ok(None)) } else { res.is_err() };
+    std::mem::forget(res);
+    assert!(ok);
+}
